@@ -62,7 +62,9 @@ CONSTANTS
   WOutcomes,      \* possible outcomes of a writer task
   MaxFail,        \* bound on the number of tasks with an outcome # DONE
   AllowSkip,      \* BOOLEAN: caller may pass skip=1 to io_write_next
-  AllowStop       \* BOOLEAN: caller may stop early between two stripes
+  AllowStop,      \* BOOLEAN: caller may stop early between two stripes (state_progress)
+  AllowBail       \* BOOLEAN: caller may bail out after the read phase of a stripe, before io_parity_write
+                  \* (sync.c: parity read error while fixing a silent error on the fly: goto bail)
 
 \* task states, numeric values of io.h
 EMPTY == 0
@@ -435,14 +437,21 @@ MBroadcastW ==
   /\ UNCHANGED <<ri, wi, done, bnext, rtask, wtask, ridx, widx, werr, rpending, wpending,
                  rsW, rdW, wdW, rpc, wpc, latest, bail, hvars>>
 
+\* the caller leaves its loop: end of positions / hard error (mpc = "stop"), early stop between two
+\* stripes, or bail-out between the read phase and the first io_parity_write of a stripe
+CallerLeaves ==
+  \/ mpc = "stop"
+  \/ mpc = "next" /\ AllowStop
+  \/ mpc = (IF Threaded THEN "wok" ELSE "preset") /\ AllowBail /\ (Threaded => wpending = Writers /\ ~wdW)
 Stop ==                                     \* io_stop_thread (broadcasts are inside the mutex)
   /\ Threaded
-  /\ mpc = "stop" \/ (mpc = "next" /\ AllowStop)
+  /\ CallerLeaves
   /\ done' = TRUE
   /\ rsW' = {} /\ wsW' = {}
   /\ mpc' = "join"
+  /\ bail' = (bail \/ mpc = "wok")
   /\ UNCHANGED <<ri, wi, bnext, rtask, wtask, ridx, widx, werr, rpending, wpending,
-                 rdW, wdW, rpc, wpc, latest, bail, hvars>>
+                 rdW, wdW, rpc, wpc, latest, hvars>>
 
 Join ==                                     \* all thread_join returned
   /\ mpc = "join"
@@ -526,10 +535,11 @@ MonoWriteNext ==                            \* io_write_next_mono: reports io->w
 
 MonoStop ==                                 \* io_stop_mono
   /\ ~Threaded
-  /\ mpc = "stop" \/ (mpc = "next" /\ AllowStop)
+  /\ CallerLeaves
   /\ mpc' = "done"
+  /\ bail' = (bail \/ mpc = "preset")
   /\ UNCHANGED <<ri, wi, done, bnext, rtask, wtask, ridx, widx, werr, rpending, wpending,
-                 rsW, wsW, rdW, wdW, rpc, wpc, latest, bail, hvars>>
+                 rsW, wsW, rdW, wdW, rpc, wpc, latest, hvars>>
 
 MainNext ==
   \/ ReadNext \/ MBroadcastR \/ CallerGot \/ CallerWaitRead
@@ -634,7 +644,7 @@ OnceInOrder ==
   /\ Done =>
        /\ \A w \in Writers : Firsts(wlog[w]) = NotSkipped      \* nothing queued is lost
        /\ \A r \in Readers : abort = -1 => Firsts(glog[r]) = mlog
-       /\ abort = -1 /\ W > 0 => Firsts(mwritten) = mlog
+       /\ abort = -1 /\ ~bail /\ W > 0 => Firsts(mwritten) = mlog
 
 \* Deterministic: at Done the observable result is a function of the inputs only, where the inputs are
 \* the outcome of every executed task (rlog, wlog), the caller's skip decisions (mwritten) and the
